@@ -755,9 +755,163 @@ def budget_facts(mods):
     return out, f
 
 
+def chr_value(tok_s):
+    """code point of a char-literal token ('x', '\\n', '\\u{2028}', '\\x0C')."""
+    b = tok_s[1:-1]
+    if not b.startswith('\\'):
+        return ord(b)
+    simple = {'n': 10, 'r': 13, 't': 9, '0': 0, '\\': 92, "'": 39, '"': 34}
+    if b[1] in simple and len(b) == 2:
+        return simple[b[1]]
+    if b[1] == 'x':
+        return int(b[2:], 16)
+    if b[1] == 'u':
+        return int(b[3:-1], 16)
+    raise ValueError(tok_s)
+
+
+def str_codes(tok_s):
+    """code points of a plain string-literal token without escapes other than \\\\ and \\"."""
+    b = tok_s[1:-1].replace('\\\\', '\x00B').replace('\\"', '"').replace('\x00B', '\\')
+    return [ord(c) for c in b]
+
+
+def trivia_facts(allfns, mods):
+    """Where the PARSER says comments and strings are (json.rs skip_ws_and_comments / string / character,
+    common.rs trivia1) and where the BUDGET SCANNER says they are (parser.rs validate_parser_budget)."""
+    out = {}
+
+    def seq(fn, *words):
+        """index just after the first occurrence of the token sequence in fn.body, or -1"""
+        ts = [t.s for t in fn.body]
+        n = len(words)
+        for i in range(len(ts) - n + 1):
+            if ts[i:i + n] == list(words):
+                return i + n
+        return -1
+
+    # ---- parser side: skip_ws_and_comments
+    f = allfns.get('json::skip_ws_and_comments')
+    if not f:
+        lost(G, 'fn skip_ws_and_comments')
+        return out
+    b = f.body
+    i = seq(f, 'trim_start_matches', '(', '|', 'c', ':', 'char', '|', 'c', '.')
+    if i < 0 or b[i + 1].s != '(' or b[i + 2].s != ')' or b[i + 3].s != ')':
+        lost(G, 'trivia: whitespace predicate of skip_ws_and_comments')
+        out['ws_pred'] = '?'
+    else:
+        out['ws_pred'] = b[i].s
+    i = seq(f, 'if', 'remaining', '.', 'starts_with', '(')
+    if i < 0 or b[i].k != 'str' or b[i + 1].s != ')':
+        lost(G, 'trivia: comment opener of skip_ws_and_comments')
+        out['comment_open'] = []
+    else:
+        out['comment_open'] = str_codes(b[i].s)
+        blk = find_top(b, i + 2, {'{'})
+        end = match_close(b, blk)
+        body = Fn('json', '_', [], [], b[blk + 1:end])
+        j = seq(body, 'remaining', '.', 'find', '(')
+        terms = None
+        if j >= 0:
+            bb = body.body
+            if bb[j].k == 'chr' and bb[j + 1].s == ')':
+                terms = [chr_value(bb[j].s)]
+            elif bb[j].s == '[':
+                e = match_close(bb, j)
+                items = [t for t in bb[j + 1:e] if t.s != ',']
+                if items and all(t.k == 'chr' for t in items) and bb[e + 1].s == ')':
+                    terms = [chr_value(t.s) for t in items]
+            elif bb[j].s == '&' and bb[j + 1].s == '[':
+                e = match_close(bb, j + 1)
+                items = [t for t in bb[j + 2:e] if t.s != ',']
+                if items and all(t.k == 'chr' for t in items):
+                    terms = [chr_value(t.s) for t in items]
+        if terms is None:
+            lost(G, 'trivia: comment terminator of skip_ws_and_comments (expected remaining.find(<char> | [<chars>]))')
+            terms = []
+        out['comment_terms'] = terms
+        # the slice that continues after the terminator, and the end-of-input arm
+        sl = ' '.join(t.s for t in body.body)
+        m = re.search(r'remaining = & remaining \[ (\w+) \+ 1 \.\. \]', sl)
+        out['term_consumed'] = bool(m)
+        if not m:
+            lost(G, 'trivia: comment continuation `&remaining[pos + 1..]`')
+        out['eof_ends_comment'] = bool(re.search(r'else \{ remaining = "" ; \}', sl))
+        if not out['eof_ends_comment']:
+            lost(G, 'trivia: comment to end of input')
+        if len(re.findall(r'\. find \(', sl)) != 1:
+            lost(G, 'trivia: more than one search in the comment arm')
+    # ---- parser side: trivia1 (between the words of a multi-word keyword)
+    f = allfns.get('common::trivia1')
+    if not f:
+        lost(G, 'fn trivia1')
+    else:
+        b = f.body
+        i = seq(f, 'take_while1', '(', '|', 'c', ':', 'char', '|', 'c', '.')
+        out['trivia1_ws_pred'] = b[i].s if i >= 0 and b[i + 1].s == '(' else '?'
+        if out['trivia1_ws_pred'] == '?':
+            lost(G, 'trivia: whitespace predicate of trivia1')
+        i = seq(f, 'peek', '(', 'tag', '(')
+        out['trivia1_comment_open'] = str_codes(b[i].s) if i >= 0 and b[i].k == 'str' else []
+        if not out['trivia1_comment_open']:
+            lost(G, 'trivia: comment opener of trivia1')
+        if seq(f, 'skip_ws_and_comments', '(', 'rest', ')') < 0:
+            lost(G, 'trivia: trivia1 continues with skip_ws_and_comments')
+    # ---- parser side: string() and character()
+    f = allfns.get('json::string')
+    g2 = allfns.get('json::character')
+    if not f or not g2:
+        lost(G, 'fn string / character')
+    else:
+        b = f.body
+        i = seq(f, 'preceded', '(', 'char', '(')
+        opener = chr_value(b[i].s) if i >= 0 and b[i].k == 'chr' else None
+        closers = [chr_value(b[k + 2].s) for k in range(len(b) - 3) if b[k].s == 'char' and b[k + 1].s == '(' and b[k + 2].k == 'chr']
+        if opener is None or closers != [opener, opener]:
+            lost(G, 'string(): opening and closing quote')
+        out['string_quote'] = opener or 0
+        b = g2.body
+        i = seq(g2, 'preceded', '(', 'char', '(')
+        esc = chr_value(b[i].s) if i >= 0 and b[i].k == 'chr' else None
+        j = seq(g2, 'none_of', '(')
+        excluded = sorted(str_codes(b[j].s)) if j >= 0 and b[j].k == 'str' else []
+        if esc is None or excluded != sorted([esc, opener or 0]):
+            lost(G, 'character(): escape character and the characters a plain string character excludes')
+        out['string_escape'] = esc or 0
+        # after the escape character exactly one character (anychar) or `u` + hex digits follows
+        if seq(g2, 'map_res', '(', 'anychar') < 0:
+            lost(G, 'character(): an escape takes the next character')
+    # ---- scanner side: validate_parser_budget
+    fns = {x.name: x for x in mods['parser'][0]}
+    f = fns.get('validate_parser_budget')
+    if f:
+        sl = ' '.join(('§%d§' % chr_value(t.s)) if t.k == 'chr' else t.s for t in f.body)
+        m = re.search(r'if in_line_comment \{ if ((?:ch == §\d+§(?: \|\| )?)+) \{ in_line_comment = false ; \} continue ; \}', sl)
+        if m:
+            out['budget_comment_terms'] = [int(x) for x in re.findall(r'§(\d+)§', m.group(1))]
+        else:
+            m = re.search(r'if in_line_comment \{ if matches ! \( ch , ((?:§\d+§(?: \| )?)+) \) \{ in_line_comment = false ; \} continue ; \}', sl)
+            out['budget_comment_terms'] = [int(x) for x in re.findall(r'§(\d+)§', m.group(1))] if m else []
+            if not m:
+                lost(G, 'budget: comment terminator test')
+        m = re.search(r'if ch == §(\d+)§ \{ if prev_slash \{ in_line_comment = true ; prev_slash = false ; \} else \{ prev_slash = true ; \} continue ; \}', sl)
+        out['budget_comment_open'] = [int(m.group(1))] * 2 if m else []
+        if not m:
+            lost(G, 'budget: comment opener (two consecutive slashes)')
+        m = re.search(r'match ch \{ §(\d+)§ => escaped = true , §(\d+)§ => in_string = false , _ => \{ \} \}', sl)
+        m2 = re.search(r'match ch \{ §(\d+)§ => in_string = true ,', sl)
+        if not m or not m2 or m.group(2) != m2.group(1):
+            lost(G, 'budget: string quote / escape arms')
+        out['budget_escape'] = int(m.group(1)) if m else 0
+        out['budget_quote'] = int(m2.group(1)) if m2 else 0
+    return out
+
+
 def tables(repo):
     allfns, edges, nodes, carrying, walkers, mods = build(repo)
     bf, _ = budget_facts(mods)
+    tf = trivia_facts(allfns, mods)
     idx = {k: i for i, k in enumerate(nodes)}
     es = set()
     for k in nodes:
@@ -787,7 +941,7 @@ def tables(repo):
     if not any(br for (_, _, br, _, _) in es) or not any(da == 'DInc' for (_, _, _, da, _) in es):
         lost(G, 'no bracket-guarded / depth-counted call found')
     return {'nodes': nodes, 'edges': sorted(es), 'carrying': sorted(idx[k] for k in carrying if k in idx),
-            'walkers': walkers, 'budget': bf,
+            'walkers': walkers, 'budget': bf, 'trivia': tf,
             'roots': [idx[k] for k in nodes if k.startswith('parser::parse_')]}
 
 
@@ -805,6 +959,23 @@ def generate(repo):
     out.append('Definition budget_pairs : list (N * N) := [%s].  (* closer, opener *)\n'
                % '; '.join('(%d%%N, %d%%N)' % (ord(a), ord(b)) for a, b in bf.get('pairs', [])))
     out.append('Definition budget_stage_order : list string := [%s].\n' % '; '.join('"%s"' % s for s in bf.get('stage_order', [])))
+    tf = t['trivia']
+    nl = lambda xs: '[%s]' % '; '.join('%d%%N' % x for x in xs)
+    out.append('\n(* where the PARSER puts comments, whitespace and strings (json.rs skip_ws_and_comments, string, character; common.rs trivia1) *)\n')
+    out.append('Definition trivia_comment_open : list N := %s.\n' % nl(tf.get('comment_open', [])))
+    out.append('Definition trivia_comment_terms : list N := %s.  (* a line comment ends at, and includes, the first of these *)\n' % nl(tf.get('comment_terms', [])))
+    out.append('Definition trivia_term_consumed : bool := %s.\n' % ('true' if tf.get('term_consumed') else 'false'))
+    out.append('Definition trivia_eof_ends_comment : bool := %s.\n' % ('true' if tf.get('eof_ends_comment') else 'false'))
+    out.append('Definition trivia_ws_pred : string := "%s".\n' % tf.get('ws_pred', '?'))
+    out.append('Definition trivia1_ws_pred : string := "%s".\n' % tf.get('trivia1_ws_pred', '?'))
+    out.append('Definition trivia1_comment_open : list N := %s.\n' % nl(tf.get('trivia1_comment_open', [])))
+    out.append('Definition string_quote : N := %d%%N.\n' % tf.get('string_quote', 0))
+    out.append('Definition string_escape : N := %d%%N.\n' % tf.get('string_escape', 0))
+    out.append('(* where the BUDGET SCANNER puts them (parser.rs validate_parser_budget) *)\n')
+    out.append('Definition budget_comment_open : list N := %s.\n' % nl(tf.get('budget_comment_open', [])))
+    out.append('Definition budget_comment_terms : list N := %s.\n' % nl(tf.get('budget_comment_terms', [])))
+    out.append('Definition budget_quote : N := %d%%N.\n' % tf.get('budget_quote', 0))
+    out.append('Definition budget_escape : N := %d%%N.\n' % tf.get('budget_escape', 0))
     out.append('\n(* %d functions, %d call positions *)\n' % (len(t['nodes']), len(t['edges'])))
     out.append('Definition kg_names : list string := [\n  %s].\n' % ';\n  '.join('"%s"' % n for n in t['nodes']))
     out.append('Definition kg_nfns : nat := %d.\n' % len(t['nodes']))
@@ -828,4 +999,5 @@ if __name__ == '__main__':
         print('carrying', [t['nodes'][i] for i in t['carrying']])
         print('walkers', t['walkers'])
         print('budget', t['budget'])
+        print('trivia', t['trivia'])
         print(len(t['nodes']), 'nodes', len(t['edges']), 'edges')
